@@ -63,16 +63,34 @@ def cmd_confirm(i):
     json.dump(meta, open(os.path.join(d, "meta.json"), "w"), indent=1)
     print(json.dumps(out, indent=1))
 
-def cmd_run(i, checks):
+def cmd_run(i, checks, overlay=False):
+    """overlay=True leaves /repo untouched (the patched files are compiled in through go's -overlay): for use
+    while other runs are building from /repo."""
     d = seeded(i); meta = json.load(open(os.path.join(d, "meta.json")))
     if not checks: checks = [meta["property"]]
-    rc, o = sh("git status --porcelain", cwd="/repo"); assert o.strip() == "", "/repo is dirty: " + o
-    rc, o = sh(["git", "apply", os.path.join(d, "patch.diff")], cwd="/repo"); assert rc == 0, o
+    ovdir = None
+    if overlay:
+        import re
+        ovdir = tempfile.mkdtemp(prefix="seedov-")
+        patch = open(os.path.join(d, "patch.diff")).read()
+        files = sorted(set(re.findall(r"^\+\+\+ b/(\S+)", patch, re.M)))
+        repl = {}
+        for f in files:
+            dst = os.path.join(ovdir, f); os.makedirs(os.path.dirname(dst), exist_ok=True)
+            if os.path.exists(os.path.join("/repo", f)): shutil.copy(os.path.join("/repo", f), dst)
+            repl[os.path.join("/repo", f)] = dst
+        r = subprocess.run(["patch", "-p1", "-s", "-d", ovdir, "-i", os.path.join(d, "patch.diff")], capture_output=True, text=True)
+        assert r.returncode == 0, r.stdout + r.stderr
+        json.dump({"Replace": repl}, open(os.path.join(ovdir, "overlay.json"), "w"))
+    else:
+        rc, o = sh("git status --porcelain", cwd="/repo"); assert o.strip() == "", "/repo is dirty: " + o
+        rc, o = sh(["git", "apply", os.path.join(d, "patch.diff")], cwd="/repo"); assert rc == 0, o
     results = meta.setdefault("check_results", {})
     try:
         for c in checks:
             t0 = time.time()
             env = dict(ENV, VERIF_EVIDENCE_DIR=tempfile.mkdtemp(prefix="seedev-"), VERIF_REPLAY_DIR=os.path.join(d, "replay"))
+            if ovdir: env["VERIF_EXTRA_OVERLAY"] = os.path.join(ovdir, "overlay.json")
             r = subprocess.run([os.path.join(ROOT, "check"), c, "quick"], env=env, capture_output=True, text=True, timeout=3600)
             viol = [l for l in r.stdout.splitlines() if l.startswith("VIOLATION")]
             first = [l for l in r.stderr.splitlines() if l.strip()][:2]
@@ -80,8 +98,11 @@ def cmd_run(i, checks):
             print(c, "exit", r.returncode, viol[:1], first[:1])
             shutil.rmtree(env["VERIF_EVIDENCE_DIR"], ignore_errors=True)
     finally:
-        sh("git checkout -- .", cwd="/repo")
-        rc, o = sh("git status --porcelain", cwd="/repo"); assert o.strip() == "", o
+        if ovdir:
+            shutil.rmtree(ovdir, ignore_errors=True)
+        else:
+            sh("git checkout -- .", cwd="/repo")
+            rc, o = sh("git status --porcelain", cwd="/repo"); assert o.strip() == "", o
     json.dump(meta, open(os.path.join(d, "meta.json"), "w"), indent=1)
 
 if __name__ == "__main__":
@@ -89,3 +110,4 @@ if __name__ == "__main__":
     if a[1] == "import": cmd_import(a[2], a[3], a[4])
     elif a[1] == "confirm": cmd_confirm(a[2])
     elif a[1] == "run": cmd_run(a[2], a[3:])
+    elif a[1] == "orun": cmd_run(a[2], a[3:], overlay=True)
